@@ -105,4 +105,23 @@ CLAIMED["C20"] = {
     "note": TB + "; exactness of f64 arithmetic on dyadic inputs",
     "technique": "Lean 4 proof (loop lemmas, totality) + differential correspondence + exact-integer property check on implementation output",
 }
+CLAIMED["C14"] = {
+    "text": "Reference state machine of a moc-set (ordered entries, capacity 128*n128-1, statuses) with theorems: a refused append leaves the state unchanged; an append succeeds iff the id "
+            "is not live and the file is not full (so re-adding works exactly after removal); uniqueness of live identifiers is an invariant; purge drops exactly the removed entries; list and "
+            "extract read the state. The REAL mocset binary is run on generated histories (incl. completely filled files, deep/shallow/empty MOCs, a lock held by another writer) and compared "
+            "with the model after every command; refusals must leave the file bytes unchanged; extract must return the MOC added. One defect repaired (chgstatus on a full file applied the "
+            "change but reported failure).",
+    "design_ref": "DESIGN.md §4 C14, §10",
+    "note": TB + "; process-level observation of the mocset binary; byte layout not modelled",
+    "technique": "Lean 4 proof on a reference state machine + correspondence with the real binary after every command of generated histories",
+}
+CLAIMED["C15"] = {
+    "text": "Specification-level query model (exact set predicates from C03) with theorems: intersect / included predicates are the set-theoretic ones, and degrading the query region to "
+            "depth 13 before the 32-bit conversion is EXACT for both modes for every region and every MOC stored at depth <= 13 (degrade_exact_*), plus a proved counterexample for the original "
+            "bound-flooring conversion. The real `mocset query` is compared with the specification on regions smaller than / inside / on the edge of storage cells, both storage widths, "
+            "with/without deprecated, sequential and parallel. The defect (false negatives / false positives for regions deeper than depth 13) was repaired.",
+    "design_ref": "DESIGN.md §4 C15, §10",
+    "note": TB + "; cone/pos geometry and the union command not driven",
+    "technique": "Lean 4 proof (exactness of degrade-then-convert) + correspondence with the real binary",
+}
 NOT_YET = {}
